@@ -124,6 +124,15 @@ func c03Kinds() []c03Kind {
 			ok(db.First(&out), "first")
 			verifrt.Assert(string(out.V) == string(in.V), "C03.value")
 		}},
+		{"bytes-empty", func(db *gorm.DB, s *Store) {
+			in := KBytes{V: []byte{}}
+			ok(db.Create(&in), "create")
+			var out KBytes
+			ok(db.First(&out), "first")
+			verifrt.Assert(out.V != nil && len(out.V) == 0, "C03.value")
+			first, _ := firstStatement(s)
+			verifrt.Assert(len(first.Args) == 1, "C03.empty-bytes-not-bound")
+		}},
 		{"ptr-int", func(db *gorm.DB, s *Store) {
 			var in KPtrInt
 			v := verifrt.Int("v")
